@@ -125,6 +125,9 @@ class Ctx:
 EXT_PIDS = {"C01", "C02", "C04", "C05", "C06", "C07", "C08", "C09", "C12", "C13", "C15"}
 TOOLPY = "/opt/veriftools/pyvenv/bin/python"
 
+UNIT_CRATE = {"XorShiftRng": "rand_xorshift", "JitterRng": "rand_jitter", "JitterLfsr": "rand_jitter", "EcState": "rand_jitter",
+              "Hc128Fns": "rand_hc", "Hc128Core": "rand_hc", "IsaacCore": "rand_isaac", "Isaac64Core": "rand_isaac"}
+
 def ext_case(r):
     """operation script that replays a srcdiff counterexample on the real crates and on the model"""
     g, fn, rp = r["unit"], r["fn"], r["replay"]
@@ -202,8 +205,18 @@ def ext_stage(ctx, ob, pid):
             else:
                 ob["broken"].append(("ExtTie." + name, (mine[name].get("error") or "")[:300]))
         else:
-            ctx.notes.append(f"{name} left the translatable fragment ({'; '.join(sorted(st)) or 'no srcdiff result'}): "
-                             f"only the sampled correspondence covers it in this run")
+            unit = name.split(".")[0]
+            ufile = (res["report"].get(unit) or {}).get("file") or UNIT_CRATE.get(unit, "")
+            stat = [d for c, n, d in common.new_mutable_statics() if ufile.startswith(c) or (not ufile and c in ("rand_xoshiro", "rand_xorshift"))]
+            if stat and not (st and st <= {"same", "equivalent"}):
+                # not a mere rewrite: the function can no longer be read as a function of its arguments AND its crate gained
+                # process-wide mutable state — what it returns may depend on earlier calls on other instances, which neither the
+                # translated definition nor a sampled history can bound
+                ob["broken"].append(("ExtTie." + name, f"left the translatable fragment, and {ufile.split('/')[0] or 'its crate'} now declares "
+                                     f"process-wide mutable state ({'; '.join(stat)[:200]}): not shown to be a function of its arguments"))
+            else:
+                ctx.notes.append(f"{name} left the translatable fragment ({'; '.join(sorted(st)) or 'no srcdiff result'}): "
+                                 f"only the sampled correspondence covers it in this run")
     if directed:
         ctx.absolute("inputs on which the current source differs from the pinned source (found by z3 on the translated functions), "
                      "replayed on the real crates and on the model", directed)
